@@ -1491,8 +1491,10 @@ func (ctx *RenderContext) getAttribute(obj interface{}, attr string) (interface{
 		if entry.ptrMethod {
 			// Need a pointer to the struct
 			if isPtr {
-				// Object is already a pointer, use the original value
-				method = reflect.ValueOf(obj).Method(entry.methodIndex)
+				// Object is already a pointer: take the method from the pointer
+				// to the struct itself (the value may be of a named pointer
+				// type, which has no methods)
+				method = objValue.Addr().Method(entry.methodIndex)
 			} else {
 				// Create a new pointer to the struct
 				ptrValue := reflect.New(objType)
